@@ -3,11 +3,12 @@ import Verif.Model.Flatten
 /-!
   C09 on the phase model: no Go panic is reachable in the modelled pipeline of Flatten.
 
-  The model marks the run-time panics of the Go code as the outcome `.panic`.  The pipeline model has
+  The model marks the run-time panics of the Go code as the outcome `.panic`.  The pipeline model had
   exactly one such site — `pr[0]` in `stripOAIGenForRef`, the first of the sorted parents of a
-  definition that is about to be re-inlined — and it is guarded: the caller skips entries without
-  parents and sorting keeps the length.  Everything else (the replace primitives, the classification,
-  `DeepestRef`, the removal loop, the import loop) returns `ok`, an error, or runs out of fuel.
+  definition that is about to be re-inlined; since the repair of that function (the first parent is
+  searched for among the parents outside of the definition) no index expression is left that can
+  fail.  Everything (the replace primitives, the classification, `DeepestRef`, the removal loop, the
+  import loop, the strip loop) returns `ok`, an error, or runs out of fuel.
   `NP x` = "x is not a panic"; the lemmas follow the definitions of `Verif/Model/Flatten.lean`.
 -/
 
@@ -199,48 +200,18 @@ theorem np_namePointers (fc : Facts) (x : Ext) (o : Opts) (s : St) : NP (namePoi
   unfold namePointers
   np_using (first | exact np_opRefsByRef _ _ | exact np_flattenAnonPointer _ _ _ _ _ _ _ _ | np_leaf)
 
-/-- the one panic site of the model: `pr[0]` on the sorted parents.  Sorting keeps the length, so the
-    site is reached only with an entry that has no parent -/
-theorem topmostFirst_ne_nil (l : List String) (h : l ≠ []) : SortRef.topmostFirst l ≠ [] := by
-  intro e
-  have := congrArg List.length e
-  rw [SortRef.topmostFirst, List.length_mergeSort] at this
-  exact h (List.eq_nil_of_length_eq_zero this)
-
-theorem np_stripOAIGenForRef (fc : Facts) (x : Ext) (st : St) (k : String) (r : NewRef) (hp : r.parents ≠ []) :
+/-- `pr[0]` on the sorted parents was the one index expression of the pipeline that could panic; since
+    the repair that picks the first parent *outside* of the definition (fix in /repo), the site is only
+    reached with an index found by a search, and nothing is left to guard -/
+theorem np_stripOAIGenForRef (fc : Facts) (x : Ext) (st : St) (k : String) (r : NewRef) :
     NP (stripOAIGenForRef fc x st k r) := by
   unfold stripOAIGenForRef
   generalize classifyFuel = cf
-  dsimp only
-  split
-  · rename_i heq
-    exact absurd heq (topmostFirst_ne_nil _ hp)
-  · np_using np_leaf
-
-theorem syncNewRef_parents (defs : List (String × J)) (r : NewRef) : (syncNewRef defs r).parents = r.parents := by
-  unfold syncNewRef
-  split
-  · split <;> rfl
-  · rfl
+  np_using np_leaf
 
 theorem np_stripInOrder (fc : Facts) (x : Ext) (s1 : St) (order : List String) : NP (stripInOrder fc x s1 order) := by
   unfold stripInOrder
-  apply NP.bind
-  · apply NP.foldlM
-    intro acc k
-    dsimp only
-    split
-    · exact NP.pure _
-    · split
-      · exact NP.pure _
-      · rename_i r _ hcond
-        apply NP.bind
-        · apply np_stripOAIGenForRef
-          intro he
-          apply hcond
-          simp [he]
-        · intro _; exact NP.pure _
-  · intro _; exact NP.pure _
+  np_using (first | exact np_stripOAIGenForRef _ _ _ _ _ | np_leaf)
 
 theorem np_stripOAIGen (fc : Facts) (x : Ext) (s : St) : NP (stripOAIGen fc x s) := by
   unfold stripOAIGen
